@@ -110,20 +110,49 @@ def run(ctx):
     import tempfile, os, shutil
     tmp = tempfile.mkdtemp(prefix="verif_c18_")
     try:
-        for i, t in enumerate(texts[:: max(1, len(texts) // ctx.budget(60, 1500))]):
-            for mode in ("same", "transform", "empty"):
+        hook_texts = texts[:: max(1, len(texts) // ctx.budget(60, 1500))] + [
+            "#include <vector>\n/// Number of items\nint count(void);\n", "/** doc */\nstruct S {\n  int a; ///< trailing\n};\n#pragma once\n",
+            "//! a\n//! b\nenum E {\n  A, ///< first\n  B\n};\n#include \"x.h\"\n"]
+
+        def transform(mode, content):
+            """what the hook returns: the property says parsing proceeds exactly as if THIS had been supplied as the content"""
+            if mode == "same":
+                return content
+            if mode == "transform":
+                return "int injected_by_pp;\n"
+            if mode == "empty":
+                return ""
+            if mode == "crlf":
+                return content.replace("\n", "\r\n")
+            if mode == "markers":
+                return "# 1 \"n.h\"\n" + content + "\n# 7 \"other.h\" 1\nint from_other;\n"
+            if mode == "cr-mixed":
+                return content.replace("\n", "\r\n", 1).replace(";", ";\r", 1)
+            if mode == "padded":
+                return "\n\n\t \f\n" + content + "\n\n"
+            raise AssertionError(mode)
+        for i, t in enumerate(hook_texts):
+            for mode in ("same", "transform", "empty", "crlf", "markers", "cr-mixed", "padded"):
                 calls = []
 
                 def pp(filename, content, mode=mode):
                     calls.append((filename, content))
-                    if mode == "same":
-                        return content if content is not None else open(filename).read()
-                    if mode == "transform":
-                        return "int injected_by_pp;\n"
-                    return ""
+                    return transform(mode, content if content is not None else open(filename, newline="").read())
+                want_err = None
                 try:
-                    want = parse_string({"same": t, "transform": "int injected_by_pp;\n", "empty": ""}[mode], filename="n.h")
-                except CxxParseError:
+                    want = parse_string(transform(mode, t), filename="n.h")
+                except CxxParseError as e:
+                    if mode in ("same", "transform", "empty"):
+                        continue
+                    want, want_err = None, str(e)
+                if want_err is not None:
+                    # the returned text is rejected when supplied directly: with the hook it must be rejected in the same way
+                    try:
+                        parse_string(t, filename="n.h", options=ParserOptions(preprocessor=pp))
+                        pfails.append({"input": t, "mode": mode, "diff": "accepted with the hook, but the hook's return value is rejected when supplied directly: %s" % want_err})
+                    except CxxParseError as e:
+                        if str(e) != want_err:
+                            pfails.append({"input": t, "mode": mode, "diff": "error %r with the hook, %r when the hook's return value is supplied directly" % (str(e)[:80], want_err[:80])})
                     continue
                 try:
                     got = parse_string(t, filename="n.h", options=ParserOptions(preprocessor=pp))
@@ -133,7 +162,8 @@ def run(ctx):
                 if calls != [("n.h", t)]:
                     pfails.append({"input": t, "mode": mode, "diff": "preprocessor calls: %r" % (calls,)})
                 if got != want:
-                    pfails.append({"input": t, "mode": mode, "diff": "result differs from parsing the preprocessor's return value"})
+                    import canon as _canon, impl as _impl
+                    pfails.append({"input": t, "mode": mode, "diff": "result differs from parsing the preprocessor's return value: %s" % _canon.first_diff(_impl.to_json(want), _impl.to_json(got))})
                 # parse_file: content is None
                 p = os.path.join(tmp, "pf%d.h" % i)
                 with open(p, "w") as fp:
@@ -141,7 +171,7 @@ def run(ctx):
                 calls.clear()
                 try:
                     gotf = parse_file(p, options=ParserOptions(preprocessor=pp))
-                    wantf = parse_string({"same": t, "transform": "int injected_by_pp;\n", "empty": ""}[mode], filename=p)
+                    wantf = parse_string(transform(mode, t), filename=p)
                     if calls != [(p, None)]:
                         pfails.append({"input": t, "mode": mode, "diff": "parse_file: preprocessor calls: %r" % (calls,)})
                     if gotf != wantf:
